@@ -78,6 +78,7 @@ func Versions(name string, level int) G {
 			Seq(small, letter, sfx1, pick2(level, Opt(Lit("-r1")), rev)),
 			Seq(pick2(level, Lit("1.0"), small), Opt(Lit("a")), sfx2, sfx2, pick2(level, Opt(Lit("-r1")), rev)),
 			Seq(small, Opt(Lit("~abc", "~0f", "~1")), rev),
+			Seq(Lit("1.0", "1.1"), Lit("~a", "~ab", "~ac", "~abc", "~abd", "~abcd", "~abce", "~1a2b3c4", "~1a2b3c4d", "~1a2b3c4e")),
 			Seq(small, sfx2, Lit("~abc")),
 			Lit("9.0bc", "9.5", "10.0", "1.0-1", "1.0_", "1.0__p", "1..2", "1.0-r", "1.0-rx", "v1.0", "1.0A", "1.0_P1", "abc1", "1.0+b", "1:1.0", "9223372036854775808", "1.9223372036854775808", "1.0_p9223372036854775808", "1.0-r9223372036854775808"),
 			AllStrings(Chars("01a_pr-.~"), 3),
